@@ -25,6 +25,27 @@ def rotated(c, Q):
     return c2
 
 
+def rot_L(L, Q):
+    """Q L Q^T with the strain rate and the spin rotated separately and re-(anti)symmetrised.
+    A velocity gradient with EXACTLY zero strain rate (rigid rotation) or exactly zero spin
+    keeps that property in the rotated frame; fl(Q W Q^T) alone has a strain rate ~1e-17
+    and would leave the exact-zero branch of eval_rhs."""
+    L = np.asarray(L, dtype=float)
+    D, W = (L + L.T) / 2, (L - L.T) / 2
+    Dq, Wq = Q @ D @ Q.T, Q @ W @ Q.T
+    return (Dq + Dq.T) / 2 + (Wq - Wq.T) / 2
+
+
+def rotated_exact(c, Q):
+    """the frame-rotated partner with L built by rot_L and D its exact symmetric part"""
+    c2 = dict(c)
+    c2["O"] = np.einsum("nij,kj->nik", c["O"], Q)
+    c2["L"] = rot_L(c["L"], Q)
+    Dq = Q @ c["D"] @ Q.T
+    c2["D"] = (Dq + Dq.T) / 2
+    return c2
+
+
 def flipped(c, picks):
     c2 = dict(c)
     O = c["O"].copy()
@@ -32,6 +53,24 @@ def flipped(c, picks):
         O[g] = TWOFOLDS[k] @ O[g]
     c2["O"] = O
     return c2
+
+
+PICK_MODES = ["half", "all", "one", "same"]
+
+
+def draw_picks(rng, n, mode="half"):
+    """which grains are replaced by a symmetry-equivalent orientation, and by which two-fold:
+    a random half (the original family), every grain, exactly one grain, every grain by the same
+    operation.  Never empty."""
+    if mode == "all":
+        return [(g, int(rng.integers(3))) for g in range(n)]
+    if mode == "one":
+        return [(int(rng.integers(n)), int(rng.integers(3)))]
+    if mode == "same":
+        k = int(rng.integers(3))
+        return [(g, k) for g in range(n)]
+    picks = [(g, int(rng.integers(3))) for g in range(n) if rng.random() < 0.5]
+    return picks or [(int(rng.integers(n)), int(rng.integers(3)))]
 
 
 def degenerate(c):
@@ -51,40 +90,281 @@ def degenerate(c):
     return bool(tie.any())
 
 
-def rate_oracle(core, c, rng):
-    """C04 for instantaneous rates, read directly on the implementation."""
+def _input_bytes(c):
+    return tuple(np.asarray(c[k]).tobytes() for k in ("O", "f", "D", "L", "S"))
+
+
+def rate_oracle(core, c, rng, exact_zero=False):
+    """C04 for instantaneous rates, read directly on the implementation.
+    exact_zero: the case has an EXACTLY zero strain rate (rigid rotation or rest); the rotated
+    partner is then built with an exactly zero strain rate as well (rotated_exact), so both calls
+    sit on the same side of the model's no-slip discontinuity and the case is not excluded."""
+    before = _input_bytes(c)
     r0 = c03.impl(core, c)
     if r0[0] == "ERR":
         return []          # C03's business
-    if degenerate(c):
+    if not exact_zero and degenerate(c):
         return []
+    rot = rotated_exact if exact_zero else rotated
     fails = []
     Ad, fd = r0[1], r0[2]
     sa = max(1.0, float(np.abs(Ad).max()))
     sf = max(1e-300, float(np.abs(fd).max()))
-    Q = G.rand_rot(rng, 1)[0]
-    r1 = c03.impl(core, rotated(c, Q))
-    if r1[0] == "ERR":
-        fails.append(f"rotated frame raises {r1[1]}")
-    else:
-        if np.abs(r1[1] - np.einsum("nij,kj->nik", Ad, Q)).max() > 1e-9 * sa:
-            fails.append("orientation rates do not co-rotate with the reference frame")
-        if np.abs(r1[2] - fd).max() > 1e-9 * sf + 1e-13:
-            fails.append("volume rates change under a rotation of the reference frame")
-    picks = [(g, int(rng.integers(3))) for g in range(c["ng"]) if rng.random() < 0.5]
-    if picks:
-        r2 = c03.impl(core, flipped(c, picks))
-        if r2[0] == "ERR":
-            fails.append(f"symmetry-equivalent orientation raises {r2[1]}")
+    # one Haar rotation and one of the 24 proper signed permutations (exactly representable:
+    # Q L Q^T carries no rounding, so an error hidden by the generic rotation's noise floor shows)
+    Qs = [("a random rotation", G.rand_rot(rng, 1)[0]),
+          ("an axis-permuting rotation", G.SIGNED_PERMS[int(rng.integers(len(G.SIGNED_PERMS)))])]
+    for qname, Q in Qs:
+        r1 = c03.impl(core, rot(c, Q))
+        if r1[0] == "ERR":
+            fails.append(f"rotated frame raises {r1[1]}")
         else:
-            exp = Ad.copy()
-            for g, k in picks:
-                exp[g] = TWOFOLDS[k] @ Ad[g]
-            if np.abs(r2[1] - exp).max() > 1e-9 * sa:
-                fails.append("orientation rate of a symmetry-equivalent grain is not the equivalent rate")
-            if np.abs(r2[2] - fd).max() > 1e-9 * sf + 1e-13:
-                fails.append("volume rates change when grains are replaced by symmetry-equivalent orientations")
+            if np.abs(r1[1] - np.einsum("nij,kj->nik", Ad, Q)).max() > 1e-9 * sa:
+                fails.append(f"orientation rates do not co-rotate with the reference frame ({qname})")
+            if np.abs(r1[2] - fd).max() > 1e-9 * sf + 1e-13:
+                fails.append(f"volume rates change under a rotation of the reference frame ({qname})")
+    for mode in ("half", PICK_MODES[1 + int(rng.integers(3))]):
+        if mode == "half":      # the original family (may be empty)
+            picks = [(g, int(rng.integers(3))) for g in range(c["ng"]) if rng.random() < 0.5]
+        else:
+            picks = draw_picks(rng, c["ng"], mode)
+        if picks:
+            r2 = c03.impl(core, flipped(c, picks))
+            if r2[0] == "ERR":
+                fails.append(f"symmetry-equivalent orientation raises {r2[1]}")
+            else:
+                exp = Ad.copy()
+                for g, k in picks:
+                    exp[g] = TWOFOLDS[k] @ Ad[g]
+                if np.abs(r2[1] - exp).max() > 1e-9 * sa:
+                    fails.append("orientation rate of a symmetry-equivalent grain is not the equivalent rate")
+                if np.abs(r2[2] - fd).max() > 1e-9 * sf + 1e-13:
+                    fails.append("volume rates change when grains are replaced by symmetry-equivalent orientations")
+    # state carried between calls: the paired calls above must neither have written into the
+    # caller's arrays nor changed what the original call returns
+    if _input_bytes(c) != before:
+        fails.append("derivatives wrote into one of its input arrays")
+    r3 = c03.impl(core, c)
+    if r3[0] != "OK" or not (np.array_equal(r3[1], Ad) and np.array_equal(r3[2], fd)):
+        fails.append("repeating the original call after the rotated / relabelled calls returns different rates")
+    # the strain rate handed over as the SAME array object as the velocity gradient (legal when L is symmetric)
+    if np.array_equal(c["D"], c["L"]):
+        c4 = dict(c)
+        c4["D"] = c4["L"] = np.ascontiguousarray(c["L"], dtype=float).copy()
+        r4 = c03.impl(core, c4)
+        if r4[0] != "OK" or not (np.array_equal(r4[1], Ad) and np.array_equal(r4[2], fd)):
+            fails.append("rates change when strain rate and velocity gradient are one array object")
     return fails
+
+
+def zero_strain_rate_cases(rng, tier):
+    """boundary stream for the rates: strain rate EXACTLY zero (rigid rotation about a random or a
+    coordinate axis; no motion at all), every valid pair x both dislocation regimes"""
+    cases = []
+    for rep in range(1 if tier == "quick" else 6):
+        for pair in G.VALID_PAIRS:
+            for regime in (4, 6):
+                for kind in ("spin", "axis_spin", "rest"):
+                    c = G.case(rng, n_grains=int(rng.integers(1, 7)), pair=pair, regime=regime,
+                               okind=("haar", "aligned", "near_aligned")[int(rng.integers(3))], lkind="general",
+                               fkind=G.F_KINDS[int(rng.integers(len(G.F_KINDS)))])
+                    w = rng.normal(size=3)
+                    if kind == "axis_spin":
+                        w = np.eye(3)[int(rng.integers(3))] * float(rng.uniform(0.2, 3.0))
+                    if kind == "rest":
+                        w = np.zeros(3)
+                    c["L"] = np.array([[0.0, -w[2], w[1]], [w[2], 0.0, -w[0]], [-w[1], w[0], 0.0]])
+                    c["D"] = np.zeros((3, 3))
+                    c["kinds"] = (c["kinds"][0], "zero_strain_rate:" + kind, c["kinds"][2])
+                    cases.append(c)
+    return cases
+
+
+# --------------------------------------------------------------------------
+# integrated textures: paired histories
+# --------------------------------------------------------------------------
+GENERIC_FLOWS = ["simple", "pure", "general", "axisym"]
+ZERO_STRAIN_FLOWS = ["spin", "shear_then_spin", "stopping"]       # L exactly antisymmetric / exactly zero for (part of) the history
+VARYING_FLOWS = ["time", "position"]
+Q_KINDS = ["haar", "signed_perm", "about_spin_axis"]
+
+
+def _is_rigid(L):
+    return not np.any(L + L.T)
+
+
+def draw_Q(prng, qkind, L0):
+    if qkind == "signed_perm":
+        return G.SIGNED_PERMS[int(prng.integers(len(G.SIGNED_PERMS)))]
+    if qkind == "about_spin_axis":
+        # a frame rotation that commutes with the spin of the flow at t = 0 (when it has one)
+        from scipy.spatial.transform import Rotation
+        W = (L0 - L0.T) / 2
+        w = np.array([W[2, 1], W[0, 2], W[1, 0]])
+        nw = float(np.linalg.norm(w))
+        if nw > 0:
+            return Rotation.from_rotvec(w / nw * float(prng.uniform(0.3, 3.0))).as_matrix()
+    return G.rand_rot(prng, 1)[0]
+
+
+def run_partner(rec, sc, tag, dt, O_map=None, wrap_L=None):
+    """One partner history of a scenario under recording: same mineral, parameters, time partition
+    and pathline; initial orientations transformed by O_map, velocity-gradient callable wrapped by
+    wrap_L.  The result has the shape c01.validate_traces expects."""
+    m, params, get_L, get_x, desc = MT.build(sc)
+    if O_map is not None:
+        m.orientations[0] = np.ascontiguousarray(O_map(np.asarray(m.orientations[0])))
+    gL = wrap_L(get_L) if wrap_L is not None else get_L
+    F, t, ups, err = np.eye(3), 0.0, [], None
+    for k in range(sc["nupd"]):
+        tr, Fn = rec.update(m, params, F, gL, (t, t + dt, get_x))
+        ups.append(dict(index=k, t0=t, t1=t + dt, trace=tr))
+        if tr.error is not None:
+            err = tr.error
+            break
+        F = Fn
+        t += dt
+    return dict(sc=dict(sc, seed=(sc["seed"], tag)), mineral=m, params=params, updates=ups, fails=[],
+                get_L=gL, get_x=get_x, desc=desc, F=F, error=err, dt=dt)
+
+
+def zero_strain_calls(h, Q=None):
+    """recorded eval_rhs evaluations of a history that sit in the exact-zero-strain-rate branch with a
+    non-zero spin; with Q: how many of them would leave that branch if the frame were rotated by the
+    naive fl(Q L Q^T) (the known discontinuity of the model: never compared, only counted)"""
+    nz = nn = 0
+    for u in h["updates"]:
+        tr = u["trace"]
+        for call in tr.rhs_calls + tr.rhs_tail:
+            L = np.asarray(h["get_L"](call["t"], h["get_x"](call["t"])), dtype=float)
+            if _is_rigid(L) and np.any(L):
+                nz += 1
+                if Q is not None:
+                    Ln = Q @ L @ Q.T
+                    nn += int(bool(np.any(Ln + Ln.T)))
+    return nz, nn
+
+
+def integrated_oracle(rec, sc, pair_seed, qkind="haar", pickmode="half", chk=None, bad=None, repeat=True):
+    """C04 for integrated textures, read directly on Mineral.update_orientations: the scenario in the
+    original frame, in a rotated frame and with a two-fold relabelled initial texture.  Everything
+    random about the partners derives from pair_seed (so that a replay file re-runs the same triple)."""
+    prng = np.random.default_rng(pair_seed)
+    res = dict(fails=[], skipped=False, worst=0.0, zero_calls=0, naive_leaves_branch=0)
+    h0 = c01.run_history(rec, sc)
+    if chk is not None:
+        c01.validate_traces(chk, h0, bad)
+    if h0["fails"]:
+        res["skipped"] = True      # C01's business
+        return res
+    dt = h0["dt"]
+    L0 = np.asarray(h0["get_L"](0.0, h0["get_x"](0.0)), dtype=float)
+    Q = draw_Q(prng, qkind, L0)
+    res["zero_calls"], res["naive_leaves_branch"] = zero_strain_calls(h0, Q)
+    res["Q"], res["dt"] = Q, dt
+    tol = 5e-3 + 1e-3 * (sc["nupd"] + 2 * h0["strain"])
+    # volume fractions: LSODA runs with atol = 1e-4 per component and step, so two runs in
+    # different frames may differ by a few 1e-4; the alarm threshold is the accumulated solver
+    # tolerance, not 1e-4 (that was a false alarm under VERIF_SEED=424242: 1.3e-4)
+    ftol = 5e-4 + 1e-3 * (sc["nupd"] + 2 * h0["strain"])
+    O_end, f_end = np.asarray(h0["mineral"].orientations[-1]), np.asarray(h0["mineral"].fractions[-1])
+    # rotated frame
+    hq = run_partner(rec, sc, "rotated", dt, O_map=lambda O: np.einsum("nij,kj->nik", O, Q),
+                     wrap_L=lambda g: (lambda t, x, g=g: rot_L(g(t, x), Q)))
+    if chk is not None:
+        c01.validate_traces(chk, hq, bad)
+    if hq["error"] is not None:
+        res["fails"].append(f"integrated texture: the history raises {type(hq['error']).__name__} in a rotated frame only")
+    else:
+        mq = hq["mineral"]
+        dO = float(np.abs(np.asarray(mq.orientations[-1]) - np.einsum("nij,kj->nik", O_end, Q)).max())
+        df = float(np.abs(np.asarray(mq.fractions[-1]) - f_end).max())
+        dF = float(np.abs(hq["F"] - Q @ h0["F_hist"][-1] @ Q.T).max())
+        res["worst"] = max(res["worst"], dO / tol)
+        if dO > tol or df > ftol or dF > tol:
+            res["fails"].append(f"integrated texture in a rotated frame differs: orientations {dO:.3e}, fractions {df:.3e}, F {dF:.3e}")
+    # two-fold relabelled initial texture
+    picks = draw_picks(prng, sc["n"], pickmode)
+    res["picks"] = picks
+
+    def relabel(O):
+        O = O.copy()
+        for g, k in picks:
+            O[g] = TWOFOLDS[k] @ O[g]
+        return O
+    h2 = run_partner(rec, sc, "relabelled", dt, O_map=relabel)
+    if chk is not None:
+        c01.validate_traces(chk, h2, bad)
+    if h2["error"] is not None:
+        res["fails"].append(f"integrated texture: the history raises {type(h2['error']).__name__} for symmetry-equivalent grains only")
+    else:
+        m2 = h2["mineral"]
+        dO = float(np.abs(np.asarray(m2.orientations[-1]) - relabel(O_end)).max())
+        df = float(np.abs(np.asarray(m2.fractions[-1]) - f_end).max())
+        res["worst"] = max(res["worst"], dO / tol)
+        if dO > tol or df > ftol:
+            res["fails"].append(f"integrated texture of symmetry-equivalent grains differs: orientations {dO:.3e}, fractions {df:.3e}")
+        if not np.array_equal(h2["F"], h0["F_hist"][-1]):
+            dF = float(np.abs(h2["F"] - h0["F_hist"][-1]).max())
+            if dF > tol:
+                res["fails"].append(f"returned deformation gradient depends on the labelling of symmetry-equivalent grains: {dF:.3e}")
+    # state carried between calls: the original history, run again on a fresh mineral AFTER the partners,
+    # must be bit-identical (no module-level cache keyed on anything that the partners changed)
+    if repeat:
+        h3 = run_partner(rec, sc, "repeat", dt)
+        if h3["error"] is not None or not (np.array_equal(np.asarray(h3["mineral"].orientations[-1]), O_end)
+                                           and np.array_equal(np.asarray(h3["mineral"].fractions[-1]), f_end)
+                                           and np.array_equal(h3["F"], h0["F_hist"][-1])):
+            res["fails"].append("the original history re-run after the rotated / relabelled histories is not bit-identical to the first run")
+    return res
+
+
+def concrete_triple(sc, res):
+    """the failing triple spelled out (what the scenario descriptor and pair_seed expand to)"""
+    m, params, get_L, get_x, desc = MT.build(sc)
+    dt = res["dt"]
+    ts = [k * dt for k in range(sc["nupd"] + 1)]
+    fl = lambda a: [float(x) for x in np.asarray(a, dtype=float).reshape(-1)]
+    return {"phase": int(sc["pair"][0]), "fabric": int(sc["pair"][1]), "regime": int(sc["regime"]), "n_grains": int(sc["n"]),
+            "orientations_init": fl(m.orientations[0]), "fractions_init": fl(m.fractions[0]),
+            "time_partition": ts,
+            "velocity_gradient_at_partition_times": [fl(get_L(t, get_x(t))) for t in ts],
+            "flow_family": sc["lkind"], "flow_description": {k: v for k, v in desc.items() if k in ("kind", "t_stop")},
+            "params": {k: (float(v) if isinstance(v, (int, float)) else str(v)) for k, v in params.items()},
+            "frame_rotation_Q": fl(res["Q"]),
+            "rotated_partner": "orientations A.Q^T, velocity gradient Q.sym(L).Q^T + Q.skew(L).Q^T (each part re-(anti)symmetrised)",
+            "relabelled_grains": [{"grain": int(g), "twofold_about_axis": "abc"[k]} for g, k in res.get("picks", [])]}
+
+
+def integrated_plan(rng, tier):
+    """(scenario, pair_seed, qkind, pickmode) of every integrated triple of a run"""
+    plan = []
+
+    def add(sc, qkind, pickmode):
+        plan.append((sc, int(rng.integers(0, 2**31 - 1)), qkind, pickmode))
+    N = 6 if tier == "quick" else 80
+    for i in range(N):
+        sc = MT.scenario(rng, regime=int((4, 6)[i % 2]), n=int(rng.integers(3, 12)), nupd=int(rng.integers(1, 4)),
+                         lkind=GENERIC_FLOWS[rng.integers(4)])
+        add(sc, "signed_perm" if i % 3 == 2 else "haar", PICK_MODES[i % 4])
+    # flows whose strain rate is exactly zero for all or part of the history (rigid rotation, rest):
+    # eval_rhs takes its no-strain branch there
+    reps = 1 if tier == "quick" else 8
+    for r in range(reps):
+        for j, lk in enumerate(ZERO_STRAIN_FLOWS):
+            sc = MT.scenario(rng, regime=int((4, 6)[(j + r) % 2]), n=int(rng.integers(3, 10)), nupd=int(rng.integers(1, 4)),
+                             lkind=lk, tkind=("random", "nonuniform", "clustered")[int(rng.integers(3))],
+                             strain=float(rng.uniform(0.5, 0.8)))
+            add(sc, Q_KINDS[(j + r) % 3] if r else "haar", PICK_MODES[(j + r) % 4])
+        # no motion at all
+        sc = MT.scenario(rng, regime=int((4, 6)[r % 2]), n=int(rng.integers(3, 10)), nupd=2, lkind="general")
+        sc["rate"] = 0.0
+        add(sc, "haar", "half")
+    for r in range(0 if tier == "quick" else 6):
+        sc = MT.scenario(rng, regime=int((4, 6)[r % 2]), n=int(rng.integers(3, 10)), nupd=int(rng.integers(1, 4)),
+                         lkind=VARYING_FLOWS[r % 2])
+        add(sc, Q_KINDS[r % 2], PICK_MODES[r % 4])
+    return plan
 
 
 def run(chk):
@@ -94,10 +374,14 @@ def run(chk):
         "frame indifference is proved about Spec_drex and transferred to the generated kernel by the C02 equality (valid pairs, deformation exponent <> 0)",
         "two-fold symmetry is proved for the generated kernel and for aggregates with any subset of grains relabelled (sign triples per grain)",
         "PARTIAL: integrated textures (LSODA) are compared by paired runs within the solver tolerance, not proved",
+        "hand-written Model_minerals.rhs / update, tied by trace validation of all three histories of every integrated triple (recorded eval_rhs outputs at 1e-9 incl. the exact-zero-strain-rate branch, stored snapshot / returned F bit-exact from LSODA's last vector)",
     ]
-    chk.cov["rule"] = ("rates: the C03 generator (all valid phase/fabric pairs, both regimes, 5 flow families, 4 volume families) with, per case, one Haar rotation of "
-                       "the frame and one random two-fold relabelling of a random subset of grains; integrated: paired LSODA histories original / rotated frame / "
-                       "two-fold relabelled initial texture; non-trivial = rates not all zero")
+    chk.cov["rule"] = ("rates: the C03 generator (all valid phase/fabric pairs, both regimes, 5 flow families, 4 volume families) with, per case, one Haar rotation and one "
+                       "of the 24 axis-permuting rotations of the frame and two two-fold relabellings (random subset; all grains / one grain / all grains by the same operation), "
+                       "the original call repeated afterwards (bit-identical, inputs untouched); boundary stream: strain rate exactly zero (rigid rotation, rest) with an exactly "
+                       "antisymmetric rotated partner; integrated: LSODA history triples original / rotated frame (L rotated as strain rate + spin, so exactly antisymmetric stays "
+                       "exactly antisymmetric) / two-fold relabelled initial texture over generic flows AND flows with exactly zero strain rate for all or part of the history "
+                       "(pure spin, shear then spin, stopping, rest), every history trace-validated against the extracted update / rhs model; non-trivial = rates not all zero")
     bad, mon = [], []
     rng = np.random.default_rng(chk.seed)
     if br.drivers.get("core", 1) is None:
@@ -112,58 +396,47 @@ def run(chk):
                           sample={"regime": c["regime"], "phase": c["phase"], "fabric": c["fabric"], "n_grains": c["ng"], "kinds": list(c["kinds"])})
             if fails:
                 mon.append((c, fails))
+        # boundary stream: exactly zero strain rate
+        zcases = zero_strain_rate_cases(rng, chk.tier)
+        zh = chk.cov.setdefault("zero_strain_rate_rate_cases", {})
+        for c in zcases:
+            fails = rate_oracle(core, c, rng, exact_zero=True)
+            zh[c["kinds"][1]] = zh.get(c["kinds"][1], 0) + 1
+            r = c03.impl(core, c)
+            chk.note_case(("rate0", c["regime"], c["phase"], c["fabric"], c["O"].tobytes(), c["L"].tobytes()),
+                          nontrivial=bool(r[0] == "OK" and (np.any(r[1]) or np.any(r[2]))))
+            if fails:
+                mon.append((c, fails))
+        bad += c03.compare(chk, core, zcases, "derivs")
         # the model itself on rotated inputs (ties the rotated calls to the proved model)
         sub = cases[:150]
         Qs = G.rand_rot(rng, len(sub))
         bad += c03.compare(chk, core, [rotated(c, Q) for c, Q in zip(sub, Qs) if not degenerate(c)], "spec_derivs")
         # integrated textures
+        fam = chk.cov.setdefault("integrated_flow_families", {})
+        qh = chk.cov.setdefault("integrated_frame_rotation_kinds", {})
+        ph = chk.cov.setdefault("integrated_relabelling_modes", {})
         with MT.Recorder() as rec:
-            N = 6 if chk.tier == "quick" else 80
-            for i in range(N):
-                sc = MT.scenario(rng, regime=int((4, 6)[i % 2]), n=int(rng.integers(3, 12)), nupd=int(rng.integers(1, 4)),
-                                 lkind=["simple", "pure", "general", "axisym"][rng.integers(4)])
-                h0 = c01.run_history(rec, sc)
-                if h0["fails"]:
+            for sc, pair_seed, qkind, pickmode in integrated_plan(rng, chk.tier):
+                key = sc["lkind"] if sc.get("rate", 1.0) != 0.0 else "rest"
+                fam[key] = fam.get(key, 0) + 1
+                qh[qkind] = qh.get(qkind, 0) + 1
+                ph[pickmode] = ph.get(pickmode, 0) + 1
+                nrun = sum(fam.values())
+                res = integrated_oracle(rec, sc, pair_seed, qkind, pickmode, chk=chk, bad=bad,
+                                        repeat=(chk.tier != "quick" or nrun % 3 == 1 or sc["lkind"] in ZERO_STRAIN_FLOWS[:2]))
+                if res["skipped"]:
+                    chk.cov["integrated_skipped_original_history_invalid"] = chk.cov.get("integrated_skipped_original_history_invalid", 0) + 1
                     continue
-                Q = G.rand_rot(rng, 1)[0]
-                m, params, get_L, get_x, _ = MT.build(sc)
-                m.orientations[0] = np.einsum("nij,kj->nik", m.orientations[0], Q)
-                getLq = lambda t, x, g=get_L: Q @ g(t, x) @ Q.T
-                F = np.eye(3)
-                t = 0.0
-                for k in range(sc["nupd"]):
-                    F = m.update_orientations(params, F, getLq, (t, t + h0["dt"], get_x))
-                    t += h0["dt"]
-                tol = 5e-3 + 1e-3 * (sc["nupd"] + 2 * h0["strain"])
-                # volume fractions: LSODA runs with atol = 1e-4 per component and step, so two runs in
-                # different frames may differ by a few 1e-4; the alarm threshold is the accumulated solver
-                # tolerance, not 1e-4 (that was a false alarm under VERIF_SEED=424242: 1.3e-4)
-                ftol = 5e-4 + 1e-3 * (sc["nupd"] + 2 * h0["strain"])
-                O0 = np.einsum("nij,kj->nik", np.asarray(h0["mineral"].orientations[-1]), Q)
-                dO = float(np.abs(np.asarray(m.orientations[-1]) - O0).max())
-                df = float(np.abs(np.asarray(m.fractions[-1]) - np.asarray(h0["mineral"].fractions[-1])).max())
-                dF = float(np.abs(F - Q @ h0["F_hist"][-1] @ Q.T).max())
-                worst = max(worst, dO / tol)
+                worst = max(worst, res["worst"])
+                chk.cov["integrated_zero_strain_rate_rhs_calls"] = chk.cov.get("integrated_zero_strain_rate_rhs_calls", 0) + res["zero_calls"]
+                # known discontinuity of the model (not a violation): a rigid rotation whose rotated L is not
+                # exactly antisymmetric takes the ordinary path; the partner is built exactly instead
+                chk.cov["near_discontinuity"] = chk.cov.get("near_discontinuity", 0) + res["naive_leaves_branch"]
+                chk.cov["integrated_naive_rotation_leaves_zero_branch"] = chk.cov.get("integrated_naive_rotation_leaves_zero_branch", 0) + res["naive_leaves_branch"]
                 chk.note_case(("integrated", sc["seed"]), nontrivial=True)
-                if dO > tol or df > ftol or dF > tol:
-                    mon.append((sc, [f"integrated texture in a rotated frame differs: orientations {dO:.3e}, fractions {df:.3e}, F {dF:.3e}"]))
-                # two-fold relabelled initial texture
-                m2, params, get_L, get_x, _ = MT.build(sc)
-                picks = [(g, int(rng.integers(3))) for g in range(sc["n"]) if rng.random() < 0.5]
-                for g, k in picks:
-                    m2.orientations[0][g] = TWOFOLDS[k] @ m2.orientations[0][g]
-                F = np.eye(3)
-                t = 0.0
-                for k in range(sc["nupd"]):
-                    F = m2.update_orientations(params, F, get_L, (t, t + h0["dt"], get_x))
-                    t += h0["dt"]
-                exp = np.asarray(h0["mineral"].orientations[-1]).copy()
-                for g, k in picks:
-                    exp[g] = TWOFOLDS[k] @ exp[g]
-                dO = float(np.abs(np.asarray(m2.orientations[-1]) - exp).max())
-                df = float(np.abs(np.asarray(m2.fractions[-1]) - np.asarray(h0["mineral"].fractions[-1])).max())
-                if dO > tol or df > ftol:
-                    mon.append((sc, [f"integrated texture of symmetry-equivalent grains differs: orientations {dO:.3e}, fractions {df:.3e}"]))
+                if res["fails"]:
+                    mon.append((dict(sc=sc, pair_seed=pair_seed, qkind=qkind, pickmode=pickmode, res=res), res["fails"]))
         chk.cov["integrated_frame_error_over_tolerance_max"] = worst
         chk.cov["traces_validated_against_impl"] = chk.cov["evaluations"]
     chk.cov["disagreements"] = len(bad)
@@ -175,9 +448,12 @@ def run(chk):
         payload = {"kind": "property-violation", "observed": fails, "required": "C04",
                    "broken": chk.cov.get("broken_obligations", []), "disagreements": [m for _, m in bad[:3]]}
         if "O" in c:
-            payload.update(call="pydrex.core.derivatives (paired calls)", input=c03.encode(c))
+            payload.update(call="pydrex.core.derivatives (paired calls)", input=c03.encode(c),
+                           exact_zero_strain_rate=bool(not np.any(c["D"])))
         else:
-            payload.update(call="Mineral.update_orientations (paired histories)", scenario=c01.encode_sc(c))
+            payload.update(call="Mineral.update_orientations (paired histories: original / rotated frame / two-fold relabelled)",
+                           scenario=c01.encode_sc(c["sc"]), pair_seed=c["pair_seed"], frame_rotation=c["qkind"],
+                           relabelling=c["pickmode"], concrete_input=concrete_triple(c["sc"], c["res"]))
         chk.replay(payload)
     else:
         chk.replay({"kind": "unproved", "broken": chk.cov.get("broken_obligations", []),
@@ -188,13 +464,24 @@ def run(chk):
 def replay(d):
     common.use_repo_source()
     import pydrex.core as core
-    if d.get("kind") != "property-violation" or "input" not in d:
+    if d.get("kind") != "property-violation" or not ("input" in d or "scenario" in d):
         print("re-run ./check C04")
         return 1
+    if "scenario" in d:
+        sc = d["scenario"]
+        sc["pair"] = tuple(sc["pair"])
+        with MT.Recorder() as rec:
+            res = integrated_oracle(rec, sc, int(d["pair_seed"]), d.get("frame_rotation", "haar"), d.get("relabelling", "half"))
+        if res["skipped"]:
+            print("the original history is itself invalid (C01): re-run ./check C01")
+            return 1
+        for f in res["fails"][:5]:
+            print("still fails:", f)
+        return 1 if res["fails"] else 0
     c = c03.decode(d["input"])
     bad = []
     for seed in range(5):
-        bad += rate_oracle(core, c, np.random.default_rng(seed))
+        bad += rate_oracle(core, c, np.random.default_rng(seed), exact_zero=bool(d.get("exact_zero_strain_rate", False)))
     for f in bad[:5]:
         print("still fails:", f)
     return 1 if bad else 0
